@@ -2,7 +2,7 @@
    flattened observation; [model_obs] runs the model on the same arguments. *)
 From Coq Require Import ZArith List Bool.
 Import ListNotations.
-From Osmo Require Import Base.Obs Base.DecModel C13.Common C13.Sqrt C13.SigFig C13.BinSearch.
+From Osmo Require Import Base.Obs Base.DecModel C13.Common C13.Sqrt C13.SigFig C13.BinSearch C13.Exp2.
 Open Scope Z_scope.
 
 Record case := mkCase {
@@ -28,6 +28,8 @@ Definition model_obs (c : case) : list Z :=
       flat_res (binary_search (search_fn_int kind p1 p2 p3) (iters_of maxit) lo hi target (mk_tol ha ad hm mu dir))
   | 8, [kind; p1; p2; p3; lo; hi; target; ha; ad; hm; mu; dir; maxit] =>
       flat_res (binary_search_bigdec (search_fn_bigdec kind p1 p2 p3) (iters_of maxit) lo hi target (mk_tol ha ad hm mu dir))
+  | 9, [e] => flat_res (exp2 e)
+  | 16, [d; n] => flat_res (bdc_power_integer d n)
   | _, _ => [-999]
   end.
 
